@@ -21,16 +21,29 @@ type recipe struct {
 	Slices [][2]int `json:"slices"` // successive SubVector(i, j) applied to it
 }
 
-func (r recipe) build() (vector.Vector, error) {
-	var v vector.Vector
+func (r recipe) build() (v vector.Vector, err error) {
+	defer func() {
+		if p := recover(); p != nil {
+			err = fmt.Errorf("building the receiver panicked: %v", p)
+		}
+	}()
 	switch r.Pass {
 	case "up":
-		v = prefill(r.N)[r.N]
-	case "down":
-		v = prefill(r.Top)[r.Top]
-		for v.Len() > r.N {
-			v = v.Pop()
+		pre, bad := prefill(r.N)
+		if bad != "" {
+			return nil, fmt.Errorf("%s", bad)
 		}
+		v = pre[r.N]
+	case "down":
+		pre, bad := prefill(r.Top)
+		if bad != "" {
+			return nil, fmt.Errorf("%s", bad)
+		}
+		down, bad := popDown(pre[r.Top])
+		if bad != "" {
+			return nil, fmt.Errorf("%s", bad)
+		}
+		v = down[r.N]
 	default:
 		return nil, fmt.Errorf("unknown pass %q", r.Pass)
 	}
@@ -102,9 +115,13 @@ func opsFor(n int, grid []int, elvish bool) []op {
 }
 
 // casesAt records all cases for the whole vector v (length n) and for slices / slices of slices of it.
-func casesAt(v vector.Vector, rc recipe, level int, elvish bool) []vcase {
+func casesAt(v vector.Vector, rc recipe, level int, elvish bool) (out []vcase) {
+	defer func() { // a panic while taking the slices to operate on: keep what was recorded so far
+		if r := recover(); r != nil {
+			out = append(out, vcase{Mode: "V", Recipe: rc, O: op{Op: "Sub"}, Kind: "whole", Parent: []rn{}, R: res{Seq: []rn{}}, It: []rn{}, After: []rn{}, Panic: true, panicS: fmt.Sprint(r)})
+		}
+	}()
 	n := v.Len()
-	var out []vcase
 	apply := func(recv vector.Vector, rc recipe, kind string, grid []int) {
 		parent := byIndex(recv)
 		for _, o := range opsFor(recv.Len(), grid, elvish && (kind == "whole" || level == 2)) {
@@ -164,14 +181,15 @@ func sweep(c *lib.Ctx, dir string) error {
 		L = v
 	}
 	c.Set("V_sweep_max_length", L)
-	up := prefill(L)
-	down := make([]vector.Vector, L+1)
-	down[L] = up[L]
-	for n := L - 1; n >= 0; n-- {
-		down[n] = down[n+1].Pop()
-		if down[n] == nil {
-			return lib.Infra("Pop of a vector of length %d returned nil while building the sweep", n+1)
-		}
+	up, bad := prefill(L)
+	if bad != "" {
+		c.Reject("vector:panic:build:Conj", bad, map[string]any{"mode": "B", "n": L})
+		return nil
+	}
+	down, bad := popDown(up[L])
+	if bad != "" {
+		c.Reject("vector:panic:build:Pop", bad, map[string]any{"mode": "B", "n": L})
+		return nil
 	}
 	const block = 400
 	total := 0
